@@ -245,23 +245,24 @@ struct out_tag : etl::output_iterator_tag, std::output_iterator_tag { };
 struct ra_tag : etl::random_access_iterator_tag, std::random_access_iterator_tag { };
 
 // write-only, range-checked output iterator
-struct Out {
+template <typename T>
+struct OutT {
     using iterator_category = out_tag;
     using value_type        = void;
     using difference_type   = std::ptrdiff_t;
     using pointer           = void;
     using reference         = void;
-    Elem* p{nullptr};
-    Elem* lo{nullptr};
-    Elem* hi{nullptr};
+    T* p{nullptr};
+    T* lo{nullptr};
+    T* hi{nullptr};
     struct Proxy {
-        Elem* t;
-        auto operator=(Elem const& v) const -> Proxy const&
+        T* t;
+        auto operator=(T const& v) const -> Proxy const&
         {
             if (t != nullptr) { *t = v; }
             return *this;
         }
-        auto operator=(Elem&& v) const -> Proxy const&
+        auto operator=(T&& v) const -> Proxy const&
         {
             if (t != nullptr) { *t = std::move(v); }
             return *this;
@@ -275,19 +276,20 @@ struct Out {
         }
         return Proxy{p};
     }
-    auto operator++() -> Out&
+    auto operator++() -> OutT&
     {
         if (p >= hi) { vf::it::g_out_of_range = true; }
         ++p;
         return *this;
     }
-    auto operator++(int) -> Out
+    auto operator++(int) -> OutT
     {
         auto t = *this;
         ++*this;
         return t;
     }
 };
+using Out = OutT<Elem>;
 
 // range-checked random-access iterator.  The position is an integer offset from `lo`, so a faulty caller that steps
 // before the range (e.g. prev(first)) is latched without the harness itself ever forming an invalid pointer.
@@ -368,7 +370,8 @@ template <typename T, typename Tag>
 auto rawp(vf::it::Iter<T, Tag> const& i) -> T* { return i.p; }
 template <typename T>
 auto rawp(Ra<T> const& i) -> T* { return i.ptr(); }
-inline auto rawp(Out const& i) -> Elem* { return i.p; }
+template <typename T>
+auto rawp(OutT<T> const& i) -> T* { return i.p; }
 
 // policies: how a check obtains iterators of one kind into a buffer
 struct KP { // raw pointers
@@ -389,6 +392,9 @@ struct KW {
 using KI = KW<vf::it::In<Elem>, 'I'>;
 using KF = KW<vf::it::Fwd<Elem>, 'F'>;
 using KB = KW<vf::it::Bidi<Elem>, 'B'>;
+// forward wrapper whose category is the plain etl tag (namespace std is NOT associated): needed where an etl template
+// makes an unqualified call (remove_if.hpp calls `find_if(...)`), which ADL would otherwise make ambiguous with std::
+using KFE = KW<vf::it::Iter<Elem, etl::forward_iterator_tag>, 'F'>;
 using KR = KW<Ra<Elem>, 'R'>;
 
 template <typename K>
@@ -543,7 +549,14 @@ inline auto verdict(std::string const& etl_out, std::string const& std_out) -> s
         auto gd = b->guards();
         if (!gd.empty()) { return "out of range: " + gd + "; etl gave " + etl_out + ", std gives " + std_out; }
     }
-    if (etl_out != std_out) { return "etl gave " + etl_out + ", std gives " + std_out; }
+    if (etl_out != std_out) {
+        if (etl_out.size() <= 200 && std_out.size() <= 200) { return "etl gave " + etl_out + ", std gives " + std_out; }
+        // long renderings: show the neighbourhood of the first difference only
+        std::size_t i = 0;
+        while (i < etl_out.size() && i < std_out.size() && etl_out[i] == std_out[i]) { ++i; }
+        auto from = i > 60 ? i - 60 : 0;
+        return "first difference at character " + std::to_string(i) + ": etl gave ..." + etl_out.substr(from, 120) + "..., std gives ..." + std_out.substr(from, 120) + "...";
+    }
     return "";
 }
 // verdict of a validity check (`why` empty = valid)
@@ -740,6 +753,47 @@ inline void enumerate(vf::Ctx& ctx, Entry const& e, int LA, int LB, int LSAME)
     }
 }
 
+// greedy shrinker for a failing random case: delete elements of a (and b) while the case keeps failing.  Deleting
+// preserves sortedness / partitioning; m and n are pulled along; a candidate the check rejects (SKIP) is not taken.
+inline void shrink_random(Entry const& e, Case& c, std::string& detail)
+{
+    auto still_fails = [&](Case const& k, std::string& d) {
+        if ((e.dims & D_HALVES) != 0 && !(sorted_by(k.a, k.cmp, 0, static_cast<std::size_t>(k.m)) && sorted_by(k.a, k.cmp, static_cast<std::size_t>(k.m), k.a.size()))) { return false; }
+        d = run_entry(e, k);
+        return !d.empty() && d != SKIP;
+    };
+    bool progress = true;
+    while (progress) {
+        progress = false;
+        for (std::size_t i = 0; i < c.a.size(); ++i) {
+            Case k = c;
+            k.a.erase(k.a.begin() + static_cast<long>(i));
+            if ((e.dims & D_BSAME) != 0 && i < k.b.size()) { k.b.erase(k.b.begin() + static_cast<long>(i)); }
+            if (k.m > static_cast<int>(i)) { --k.m; }
+            if (k.n > static_cast<int>(k.a.size()) + 1) { k.n = static_cast<int>(k.a.size()) + 1; }
+            std::string d;
+            if (still_fails(k, d)) {
+                c        = k;
+                detail   = d;
+                progress = true;
+                break;
+            }
+        }
+        if (progress || (e.dims & D_B) == 0) { continue; }
+        for (std::size_t i = 0; i < c.b.size(); ++i) {
+            Case k = c;
+            k.b.erase(k.b.begin() + static_cast<long>(i));
+            std::string d;
+            if (still_fails(k, d)) {
+                c        = k;
+                detail   = d;
+                progress = true;
+                break;
+            }
+        }
+    }
+}
+
 // E1-style seeded random top-up: longer, duplicate-heavy inputs over keys 0..3; preconditions by construction
 inline void random_cases(vf::Ctx& ctx, Entry const& e, int count, int maxlen)
 {
@@ -801,6 +855,7 @@ inline void random_cases(vf::Ctx& ctx, Entry const& e, int count, int maxlen)
             auto d = run_entry(e, c);
             if (d == SKIP) { break; }
             if (!d.empty()) {
+                shrink_random(e, c, d);
                 vf::mismatch(e.name, c, d);
                 break;
             }
